@@ -5,6 +5,8 @@ import AfkakProofs.Consumer.DelayFacts
 namespace Afkak.Proofs.Consumer
 open Afkak.Consumer Afkak.Monitor Afkak.Consts
 
+variable [EnvHyp]
+
 /-- Everything that holds of a reachable state at every point where the re-entrant API may run. -/
 structure G (cfg : Cfg) (s : St) : Prop where
   g1 : G1 s
@@ -12,6 +14,8 @@ structure G (cfg : Cfg) (s : St) : Prop where
   res : Gres s
   ack : Gack s
   fo : Gfo s
+  pay : Gpay s
+  inc : EnvHyp.sane → Ginc cfg s
 
 /-- `x` is a good successor of `s`: the invariant holds and the executing generator is untouched. -/
 def Good (cfg : Cfg) (s x : St) : Prop := G cfg x ∧ x.frame = s.frame
@@ -47,18 +51,33 @@ macro "gack_fields" : tactic => `(tactic|
 macro "gfo_fields" : tactic => `(tactic|
   (constructor <;> ((try unfold emit at *); grind [C13.foStep, runR_cons])))
 
+/-- close `Gpay X` likewise -/
+macro "gpay_fields" : tactic => `(tactic|
+  (constructor <;> ((try unfold emit at *); grind [C02.payStep, runR_cons])))
+
+/-- close `Ginc cfg X` likewise -/
+syntax "ginc_fields" ident : tactic
+macro_rules
+  | `(tactic| ginc_fields $hi) => `(tactic|
+      (intro hP
+       obtain ⟨i1, i2a, i2b, i2c, i2d, i2e, i3, i4, i5, i6, i7⟩ := $hi hP
+       clear $hi
+       constructor <;> ((try unfold emit at *); grind [C02.incStep, runR_cons])))
+
 /-- `Good cfg s X` for an explicit update `X` of `x`, from `hx : Good cfg s x`. -/
 syntax "leaf" ident : tactic
 macro_rules
   | `(tactic| leaf $hx) => `(tactic|
       (obtain ⟨⟨⟨h1, h2, h2b, h3, h4, h5, h6, h7, h8, h9, h10, h11, h12, h13⟩,
-                ⟨k1, k2, k3, k4, k5, k6⟩, ⟨r1, r2⟩, ⟨a1, a2, a3⟩, ⟨f1, f2, f3⟩⟩, hfr⟩ := $hx
-       refine ⟨⟨?_, ?_, ?_, ?_, ?_⟩, ?_⟩
-       · g1_fields
-       · gsf_fields
-       · gres_fields
-       · gack_fields
-       · gfo_fields
+                ⟨k1, k2, k3, k4, k5, k6⟩, ⟨r1, r2⟩, ⟨a1, a2, a3⟩, ⟨f1, f2, f3⟩, ⟨p1, p2, p3, p4⟩, hinc⟩, hfr⟩ := $hx
+       refine ⟨⟨?_, ?_, ?_, ?_, ?_, ?_, ?_⟩, ?_⟩
+       · (clear hinc p1 p2 p3 p4; g1_fields)
+       · (clear hinc p1 p2 p3 p4; gsf_fields)
+       · (clear hinc p1 p2 p3 p4; gres_fields)
+       · (clear hinc p1 p2 p3 p4; gack_fields)
+       · (clear hinc p1 p2 p3 p4; gfo_fields)
+       · (clear hinc h1 h2 h2b h3 h4 h5 h6 h7 h8 h9 h10 h11 h12 h13 k1 k2 k3 k4 a1 a2 a3 r1 r2 f1 f2 f3; gpay_fields)
+       · (clear p1 p2 p3 p4; ginc_fields hinc)
        · first | exact hfr | (simp only []; exact hfr) | grind))
 
 /-- `G cfg X` for an explicit update `X` of `x` (which may replace the frame), from `hx : G cfg x`. -/
@@ -66,13 +85,15 @@ syntax "gleaf" ident : tactic
 macro_rules
   | `(tactic| gleaf $hx) => `(tactic|
       (obtain ⟨⟨h1, h2, h2b, h3, h4, h5, h6, h7, h8, h9, h10, h11, h12, h13⟩,
-               ⟨k1, k2, k3, k4, k5, k6⟩, ⟨r1, r2⟩, ⟨a1, a2, a3⟩, ⟨f1, f2, f3⟩⟩ := $hx
-       refine ⟨?_, ?_, ?_, ?_, ?_⟩
-       · g1_fields
-       · gsf_fields
-       · gres_fields
-       · gack_fields
-       · gfo_fields))
+               ⟨k1, k2, k3, k4, k5, k6⟩, ⟨r1, r2⟩, ⟨a1, a2, a3⟩, ⟨f1, f2, f3⟩, ⟨p1, p2, p3, p4⟩, hinc⟩ := $hx
+       refine ⟨?_, ?_, ?_, ?_, ?_, ?_, ?_⟩
+       · (clear hinc p1 p2 p3 p4; g1_fields)
+       · (clear hinc p1 p2 p3 p4; gsf_fields)
+       · (clear hinc p1 p2 p3 p4; gres_fields)
+       · (clear hinc p1 p2 p3 p4; gack_fields)
+       · (clear hinc p1 p2 p3 p4; gfo_fields)
+       · (clear hinc h1 h2 h2b h3 h4 h5 h6 h7 h8 h9 h10 h11 h12 h13 k1 k2 k3 k4 a1 a2 a3 r1 r2 f1 f2 f3; gpay_fields)
+       · (clear p1 p2 p3 p4; ginc_fields hinc)))
 
 /-- `Pres cfg h` for a handler that calls no other handler: unfold and check every path. -/
 syntax "pres_leaf" "[" ident* "]" : tactic
@@ -83,13 +104,15 @@ macro_rules
        unfold $ds*
        (try unfold emit)
        obtain ⟨⟨⟨h1, h2, h2b, h3, h4, h5, h6, h7, h8, h9, h10, h11, h12, h13⟩,
-                ⟨k1, k2, k3, k4, k5, k6⟩, ⟨r1, r2⟩, ⟨a1, a2, a3⟩, ⟨f1, f2, f3⟩⟩, hfr⟩ := hx
-       refine ⟨⟨?_, ?_, ?_, ?_, ?_⟩, ?_⟩
-       · g1_fields
-       · gsf_fields
-       · gres_fields
-       · gack_fields
-       · gfo_fields
+                ⟨k1, k2, k3, k4, k5, k6⟩, ⟨r1, r2⟩, ⟨a1, a2, a3⟩, ⟨f1, f2, f3⟩, ⟨p1, p2, p3, p4⟩, hinc⟩, hfr⟩ := hx
+       refine ⟨⟨?_, ?_, ?_, ?_, ?_, ?_, ?_⟩, ?_⟩
+       · (clear hinc p1 p2 p3 p4; g1_fields)
+       · (clear hinc p1 p2 p3 p4; gsf_fields)
+       · (clear hinc p1 p2 p3 p4; gres_fields)
+       · (clear hinc p1 p2 p3 p4; gack_fields)
+       · (clear hinc p1 p2 p3 p4; gfo_fields)
+       · (clear hinc h1 h2 h2b h3 h4 h5 h6 h7 h8 h9 h10 h11 h12 h13 k1 k2 k3 k4 a1 a2 a3 r1 r2 f1 f2 f3; gpay_fields)
+       · (clear p1 p2 p3 p4; ginc_fields hinc)
        · grind))
 
 /-- the outstanding fetch/offset request is never the commit request -/
